@@ -150,7 +150,10 @@ def run_tasks(tasks, procs=None, retry=True):
                 x["detail"] = "all back ends: unknown/timeout"
     # phase 3: one retry of tasks that still have an undecided obligation (solver
     # verdicts can flip under load); a fresh process, fewer workers, larger budget
-    if retry:
+    # (pointless when something is already refuted: the check reports that violation)
+    if retry and not any(x["verdict"] == "refuted" and not r["task"].get("canary")
+                         and ".region[" not in x["name"]
+                         for r in res for x in r.get("results", [])):
         again = [i for i, r in enumerate(res)
                  if any(x["verdict"] == "unknown" for x in r.get("results", []))]
         if again and len(again) <= 24:
